@@ -576,7 +576,7 @@ fn corpus(sink: &mut Sink) {
             ]),
             // (2) a name outside the HTML namespaces is honoured in FIRST position only, and an element outside the
             // HTML namespaces ends the search at the first listed name that is not itself
-            (e(h("div"), vec![e(svg("g"), vec![e(svg("circle"), vec![])]), e(h("ul"), vec![e(h("li"), vec![])]), e(hv.id("a", NS_A), vec![e(hv.id("b", NS_A), vec![])])]), vec![], vec![
+            (e(h("div"), vec![GTree::leaf(Namespace(2, NS_A)), e(svg("g"), vec![e(svg("circle"), vec![])]), e(h("ul"), vec![e(h("li"), vec![])]), e(hv.id("a", NS_A), vec![e(hv.id("b", NS_A), vec![])])]), vec![], vec![
                 HParams { cdata: vec![], indent: Some(vec![svg("g"), h("ul")]) },
                 HParams { cdata: vec![], indent: Some(vec![h("ul"), svg("g")]) },
                 HParams { cdata: vec![], indent: Some(vec![hv.id("a", NS_A), svg("g")]) },
